@@ -6,6 +6,8 @@
 #include "spacial/tbfspacialconfiguration.hpp"
 #include "core/tbftree.hpp"
 #include "algorithms/sequential/tbfalgorithm.hpp"
+#include "algorithms/sequential/tbfalgorithmtsm.hpp"
+#include "core/tbftreetsm.hpp"
 #include "common.hpp"
 #include "trace_kernel.hpp"
 #include <algorithm>
@@ -113,10 +115,94 @@ std::string run_exec(const Cmd& c){
     return out;
 }
 
+// ---- target/source variant ----
+template <class Groups, class PGroups>
+std::string dump_parts(long H, Groups&& cellGroupsAt, PGroups&& pgroups){
+    std::string s = "H=" + std::to_string(H);
+    for(long l = 0 ; l < H ; ++l){
+        s += " | L" + std::to_string(l) + ":";
+        for(const auto& g : cellGroupsAt(l)){
+            s += " [" + std::to_string(g.getStartingSpacialIndex()) + " " + std::to_string(g.getEndingSpacialIndex()) + " " + std::to_string(g.getNbCells()) + ":";
+            for(long k = 0 ; k < g.getNbCells() ; ++k) s += " " + std::to_string(g.getCellSpacialIndex(k));
+            s += "]";
+        }
+    }
+    s += " | P:";
+    for(const auto& g : pgroups){
+        s += " [" + std::to_string(g.getStartingSpacialIndex()) + " " + std::to_string(g.getEndingSpacialIndex()) + " " + std::to_string(g.getNbLeaves()) + " " + std::to_string(g.getNbParticles()) + ":";
+        for(long k = 0 ; k < g.getNbLeaves() ; ++k){
+            const auto& h = g.getLeafSymbData(k);
+            s += " (" + std::to_string(h.spaceIndex) + " " + std::to_string(h.nbParticles) + " " + std::to_string(h.offSet) + ":";
+            std::vector<long> parts(g.getParticleIndexes(k), g.getParticleIndexes(k) + h.nbParticles);
+            std::sort(parts.begin(), parts.end());
+            for(long p : parts) s += " " + std::to_string(p);
+            s += ")";
+        }
+        s += "]";
+    }
+    return s;
+}
+
+//   exectsm d per H B mode stop nf f_1..f_nf Ns <Ns*d nums> Nt <Nt*d nums>
+// output: dumpSource || dumpTarget || trace || R (target results) || C (source multipoles / target locals)
+template <long D, bool Per>
+std::string run_exec_tsm(const Cmd& c){
+    using Conf = TbfSpacialConfiguration<double, D>;
+    using Space = TbfMortonSpaceIndex<D, Conf, Per>;
+    using Tree = TbfTreeTsm<double, double, D, unsigned long, 1, TagVal, TagVal, Space>;
+    using Kernel = TraceKernel<double, Space>;
+    using Algo = TbfAlgorithmTsm<double, Kernel, Space>;
+    const long H = c.L(3), B = c.L(4), mode = c.L(5), stop = c.L(6), nf = c.L(7);
+    std::vector<int> flags; size_t a = 8;
+    for(long k = 0 ; k < nf ; ++k) flags.push_back(int(c.L(a++)));
+    std::array<double, D> w, ctr; for(long k = 0 ; k < D ; ++k){ w[k] = 1; ctr[k] = 0.5; }
+    Conf conf(H, w, ctr);
+    const double scale = 16.0 * double(1L << (H-1));
+    const long Ns = c.L(a++);
+    std::vector<std::array<double, D>> ps(Ns);
+    for(long i = 0 ; i < Ns ; ++i) for(long k = 0 ; k < D ; ++k) ps[i][k] = double(c.L(a++)) / scale;
+    const long Nt = c.L(a++);
+    std::vector<std::array<double, D>> pt(Nt);
+    for(long i = 0 ; i < Nt ; ++i) for(long k = 0 ; k < D ; ++k) pt[i][k] = double(c.L(a++)) / scale;
+    Tree tree(conf, ps, pt, B, mode != 0);
+    tree.applyToAllCellsSource([](long level, auto&& h, auto&& m, auto&&){ if(m){ m->get().tagLevel1 = level + 1; m->get().tagIndex = h.spaceIndex; } });
+    tree.applyToAllCellsTarget([](long level, auto&& h, auto&&, auto&& l){ if(l){ l->get().tagLevel1 = level + 1; l->get().tagIndex = h.spaceIndex; } });
+    TraceSink sink; trace_sink() = &sink;
+    std::string out = dump_parts(H, [&](long l) -> const auto& { return tree.getCellGroupsAtLevelSource(l); }, tree.getParticleGroupsSource());
+    out += " || " + dump_parts(H, [&](long l) -> const auto& { return tree.getCellGroupsAtLevelTarget(l); }, tree.getParticleGroupsTarget());
+    {
+        std::unique_ptr<Algo> algo(new Algo(conf, stop));
+        for(int f : flags){ algo->execute(tree, f); sink.add("--"); }
+    }
+    out += " || " + join_trace(sink);
+    std::vector<std::pair<long, unsigned long>> r;
+    tree.applyToAllLeavesTarget([&](auto&& h, const long* idx, auto&&, auto&& rhs){
+        for(long p = 0 ; p < h.nbParticles ; ++p) r.push_back({idx[p], rhs[0][p]});
+    });
+    std::sort(r.begin(), r.end());
+    out += " || R";
+    for(auto& kv : r) out += " " + std::to_string(kv.first) + "=" + std::to_string(kv.second);
+    out += " || C";
+    tree.applyToAllCellsSource([&](long level, auto&& h, auto&& m, auto&&){ out += " s" + std::to_string(level) + "/" + std::to_string(h.spaceIndex) + "=" + std::to_string(m ? m->get().val : 0UL); });
+    tree.applyToAllCellsTarget([&](long level, auto&& h, auto&&, auto&& l){ out += " t" + std::to_string(level) + "/" + std::to_string(h.spaceIndex) + "=" + std::to_string(l ? l->get().val : 0UL); });
+    trace_sink() = nullptr;
+    return out;
+}
+
 int main(int argc, char** argv){
     return run_commands(argc, argv, [](const Cmd& c) -> std::string {
-        if(c.tok[0] != "exec") return "?unknown";
         const long d = c.L(1); const bool per = c.L(2) != 0;
+        if(c.tok[0] == "exectsm"){
+            switch(d*2 + (per?1:0)){
+            case 2: return run_exec_tsm<1,false>(c);
+            case 4: return run_exec_tsm<2,false>(c);
+            case 6: return run_exec_tsm<3,false>(c);
+            case 7: return run_exec_tsm<3,true>(c);
+            case 8: return run_exec_tsm<4,false>(c);
+            }
+            return "?dim";
+        }
+        if(c.tok[0] != "exec") return "?unknown";
         switch(d*2 + (per?1:0)){
         case 2: return run_exec<1,false>(c);
         case 3: return run_exec<1,true>(c);
